@@ -54,6 +54,7 @@ theorem family_zoned_total (is : List Item) (z : Zoned) (Y : Int) (o : Nat) (hvd
   obtain ⟨fy, _⟩ := date_facts Y o hvd
   obtain ⟨_, ⟨hsep, _⟩, hg1, hg2, _⟩ := hU
   obtain ⟨hEy, hEl, hEo, hEs, hEf⟩ := hE
+  have hEl := exprLeap_of_for is _ hft hEl
   simp only [exprLeap, shown, hl, onSome] at hEl
   simp only [exprFrac, shown, hl, onSome] at hEf
   simp only [exprYears, shown, hl, onSome, fy] at hEy
